@@ -173,13 +173,18 @@ def _match_seq(ex, spec, items, rd: Reader, b: Binding, region: str):
             ok = False
             if lr.cond is not None:
                 r = rel(lr.cond, True)
+                cands = []
                 if r[0] == "rel" and r[1] == "NotEq":
-                    for x, y in ((r[2], r[3]), (r[3], r[2])):
-                        if x.op == "loopvar" and x.args[0] == loop.lid and is_const(y) and cval(y) == rs["sentinel"] and not isinstance(cval(y), bool):
-                            nm = x.args[1]
-                            if _int_of(pre, lr.init.get(nm, C(None))) and _int_of(nxt, lr.next.get(nm, C(None))):
-                                ok = True
-                                lenvar = x
+                    cands = [(x, y) for x, y in ((r[2], r[3]), (r[3], r[2])) if is_const(y) and cval(y) == rs["sentinel"] and not isinstance(cval(y), bool)]
+                elif r[0] == "rel" and r[1] == "Truthy" and rs["sentinel"] == 0:
+                    # `while n:` on an int is `while n != 0`
+                    cands = [(unsnap(r[2]), C(0))]
+                for x, y in cands:
+                    if x.op == "loopvar" and x.args[0] == loop.lid:
+                        nm = x.args[1]
+                        if _int_of(pre, lr.init.get(nm, C(None))) and _int_of(nxt, lr.next.get(nm, C(None))):
+                            ok = True
+                            lenvar = x
             if not ok:
                 raise Mismatch("reader: record loop of %s does not run exactly while the length byte read is != %d" % (region, rs["sentinel"]), pre.ev.where)
             if unsnap(rec.size) is not lenvar:
